@@ -19,4 +19,5 @@ const (
 	verifPubSubPongPhase
 	verifAttemptAfterTick
 	verifChainPrimaryFired
+	verifChannelGetLocked
 )
